@@ -509,6 +509,15 @@ def deep_log(ctx: Ctx, entry_msg, null_msg, rounds: int) -> None:
                               {"history": list(hist), "view_before": sorted(before.items())[:6], "view": sorted(view_of(f).items())[:6], "controller": log[:6]}, "history")
             _, nxt = run_get(f, log, hist, nxt)
             check_equal(f, log, hist, "read-through-after-failure-mismatch", "after a failed read-through, announcements and a complete read-through the view differs from the controller's log")
+            if trial % 2:         # ... and further entries whose announcements are LOST: only the next read-through can bring them in
+                for _ in range(rng.randint(1, 2)):
+                    new_entry(log, nxt)
+                    nxt += 1
+                    hist.append(("new-entry", "announcement lost"))
+                ok2, nxt = run_get(f, log, hist, nxt)
+                if ok2:
+                    check_equal(f, log, hist, "read-through-after-failure-and-lost-announcements-mismatch",
+                                "after a failed read-through, entries whose announcements were lost and a complete read-through the view differs from the controller's log")
         check_bound(f, hist)
 
     # (D1) arbitrary histories on a (nearly) full log: losses, single replies near the end -- no index beyond the log, views total
